@@ -125,6 +125,22 @@ def parse_json_lines(out):
     return res
 
 
+def simulate_behaviours(module, cfg, workdir, num, depth, seed=None):
+    """TLC -simulate: returns (behaviours, run) where a behaviour is the list of states {variable: value} of one random walk"""
+    from . import tlaval
+    d = tempfile.mkdtemp(prefix="sim-", dir=workdir)
+    r = run_tlc(module, cfg, workdir, workers=1, simulate="file=%s/tr,num=%d" % (d, num),
+                extra=["-depth", str(depth), "-seed", str(SEED if seed is None else seed)], timeout=3600)
+    if "Finished in" not in r["out"] or "Error:" in r["out"]:
+        sys.stderr.write(r["out"][-3000:])
+        raise MachineryError("TLC simulation of %s failed" % module)
+    beh = tlaval.parse_trace_dir(d)
+    shutil.rmtree(d, ignore_errors=True)
+    m = re.search(r"The number of states generated: (\d+)", r["out"])
+    r["generated"] = int(m.group(1)) if m else 0
+    return beh, r
+
+
 def tlc_failed(r):
     """TLC finished without 'No error has been found' (and it was not just a deadlock/no-next)."""
     return "No error has been found" not in r["out"]
